@@ -58,7 +58,7 @@ CLAIMED = {
                   "shape of the real index (per container entry count and multiset of entry lengths) must equal the shape for the "
                   "representative profile with the same public size parameter, and padded tables must have one key length and one "
                   "value length. Lengths are what the ideal primitives preserve, so nothing is lost by the stubs here.",
-             note=_PIPE_NOTE + " Open finding C05-anss16-level-overflow is reported as KNOWN-FINDING.", ref="3/C05"),
+             note=_PIPE_NOTE + " The ANSS16 level-overflow defect this check found is repaired in /repo (962b209); no finding is open.", ref="3/C05"),
  "C15": dict(cat="other", engine="bvx", tech="SMT (z3, QF_UFBV) over an encoding generated from the source by the BVX AST-to-SMT interpreter; HMAC uninterpreted",
              text="For each bit width the plaintext is a free bit-vector and the round function's HMAC is an uninterpreted function: "
                   "decrypt(encrypt(x)) == x, encrypt(decrypt(y)) == y and length preservation are unsat-checked for ALL inputs, "
@@ -126,9 +126,9 @@ CLAIMED = {
                   "clean_service_when_close_connection / Service code; each path checks mutual exclusion of served connections, "
                   "no roll-back of acknowledged state (probe connection after quiescence) and that an acknowledged index is the "
                   "one searched. All path trees are exhausted.",
-             note="Two genuine defects of the unchanged tree are open findings (stale snapshot written back; two waiters released "
-                  "together); violations on schedules that contain those structural patterns are reported as KNOWN-FINDING, every "
-                  "other violation as VIOLATION - a new defect that only shows on such schedules would be masked. Trusted: "
+             note="The two defects this check found (stale snapshot written back; two waiters released together) are repaired in "
+                  "/repo (e1bc986); no finding is open and no schedule is exempt. Every connection enters through "
+                  "frontend.server.connector.handler. Trusted: "
                   "env/aio.py (run-to-next-await, FIFO lock wake-up), env/memfs.py, fake websockets.", ref="3/C12"),
  "C13": dict(cat="fault_enumeration", tech="bounded crash-point exploration by symbolic execution (CrossHair/z3) over a file-system model with kill semantics",
              text="The interrupted workflow step and the crash point (every state-changing file operation of the client and of the "
